@@ -157,4 +157,15 @@ if __name__ == "__main__":
     elif a[0] == "run":
         run(a[1], a[2:])
     elif a[0] == "table":
-        table()
+        if "--write" in a:
+            import io, contextlib
+            buf = io.StringIO()
+            with contextlib.redirect_stdout(buf):
+                table()
+            p = os.path.join(V, "DESIGN.md")
+            s = open(p).read()
+            b, e = "<!-- seeded-table:begin -->", "<!-- seeded-table:end -->"
+            i, j = s.index(b) + len(b), s.index(e)
+            open(p, "w").write(s[:i] + "\n" + buf.getvalue() + s[j:])
+        else:
+            table()
